@@ -54,9 +54,15 @@ def manager():
     return pm
 
 
+def _coin(sc, what):
+    """A reproducible coin per (scenario, purpose): orthogonal switches of the drivers must not follow the model's own dimensions."""
+    import zlib
+    return zlib.crc32(repr((what, sc["rw"], sc["est"], sc["flt"], sc["nanF"], sc["nanP"], sc.get("shared"), sc["mask"])).encode()) % 2 == 1
+
+
 def magnitude_of(sc):
     """Every second scenario perturbs by 2^-30 instead of 1/4: differences stay exact, but are far below 1e-8."""
-    return 2.0 ** -30 if (sum(sum(row) for row in sc["b"]) + sc["P"]) % 2 else MAGNITUDE
+    return 2.0 ** -30 if _coin(sc, "magnitude") else MAGNITUDE
 
 
 def build_config(sc, **over):
@@ -79,7 +85,7 @@ def build_config(sc, **over):
                      "perturbation_magnitudes": magnitude_of(sc), "merge_realizations": bool(sc["merged"])},
         "samplers": [{"method": "rvdesign/design", "shared": bool(sc.get("shared", False))}],
     }
-    if (sc["R"] + sc["P"]) % 2 == 0:
+    if _coin(sc, "filter order"):
         # the ORDER of the configured filters is not part of the scenario: here the CVaR objective filter comes first
         fl = cfg["realization_filters"]
         fl[0], fl[1] = fl[1], fl[0]
